@@ -275,6 +275,9 @@ func (x *Exec) discharge(dir string, perCheckMs int, workers int) {
 // retryFilter, when set, limits the second-chance effort to the goals it accepts.
 var retryFilter func(g *Goal) bool
 
+// confirmSecond: thorough tier, see dischargeAll.
+var confirmSecond bool
+
 type jobRef struct {
 	x   *Exec
 	job *scriptJob
@@ -326,6 +329,27 @@ func dischargeAll(xs []*Exec, dir string, perCheckMs int, workers int) {
 				g.script = filepath.Join(dir, ref.tag+".smt2")
 			}
 			mu.Unlock()
+			// thorough tier: every goal the first configuration discharged is
+			// put to a second one (z3 4.8.12, an independent release)
+			if confirmSecond {
+				res2, _, _ := runSolver(ctx, solvers[3], job.text, perCheckMs/6, dir, ref.tag+".second")
+				mu.Lock()
+				for _, g := range job.goals {
+					if g.expect == "cover" || g.status != "unsat" {
+						continue
+					}
+					g.second = res2[g.id]
+					if g.second == "" {
+						g.second = "unknown"
+					}
+					if g.second == "sat" {
+						// two solvers disagree: never resolved in favour of the convenient answer
+						g.status = "unknown"
+						g.info += " solver-disagreement: " + g.solver + " unsat, z3-4.8.12 sat"
+					}
+				}
+				mu.Unlock()
+			}
 			// second chance for undecided goals: the other solver configurations
 			// race on a single-goal script
 			for _, g := range job.goals {
